@@ -458,7 +458,7 @@ def monitor(history, events, check_faults=True):
     restarts = {}      # src -> event indices of restarts
     for idx, (line, ev) in enumerate(zip(history, events)):
         f = line.split()
-        if f[0] == "S":
+        if f[0] in ("S", "SL"):
             s = int(f[1])
             last_high_src[s] = int(f[2])
             n = int(f[3])
